@@ -190,6 +190,7 @@ type simSpeakerConf struct {
 	NoRouteRefresh bool
 	ExtraCaps []bgp.ParameterCapabilityInterface // appended to the generated capabilities (used when Caps == nil)
 	Port     uint16
+	Local    string // gobgp-side (local) address of the connections offered by connectPassive; "" = simLocalAddr
 }
 
 type simSpeaker struct {
@@ -286,7 +287,11 @@ func simReadMsgRaw(c net.Conn) (*bgp.BGPHeader, []byte, error) {
 // connectPassive offers a new inbound connection to gobgp and performs the OPEN/KEEPALIVE
 // exchange. It returns an error if gobgp did not bring the session up.
 func (sp *simSpeaker) connectPassive() error {
-	gside, mine := simPipe(simLocalAddr, sp.conf.Addr, sp.conf.Port)
+	local := simLocalAddr
+	if sp.conf.Local != "" {
+		local = sp.conf.Local
+	}
+	gside, mine := simPipe(local, sp.conf.Addr, sp.conf.Port)
 	sp.n.acceptCh <- gside
 	return sp.handshake(mine)
 }
@@ -696,7 +701,7 @@ func simInstallYield(seed uint64, allowSleep bool) (sig func() uint64, count fun
 		case 4:
 			// (a sleeping goroutine is durably blocked: synctest.Wait() would report quiescence while
 			// gobgp still has work in hand, so checks that compare at quiescence must not allow sleeps)
-			if allowSleep && point != "bucket" {
+			if allowSleep && point != "bucket" && point != "walk" { // both sit inside locks other goroutines wait for
 				time.Sleep(time.Duration(x>>8&1023) * time.Microsecond)
 			} else {
 				runtime.Gosched()
